@@ -17,6 +17,8 @@ from __future__ import annotations
 import ast
 
 from ..lib import *
+from ..twin import check_pairs
+from ._twins import pairs_for, all_pairs
 from . import _tables as T
 from . import C13
 
@@ -69,6 +71,10 @@ def check(ctx):
     ea = elc.own_methods.get("elemwise_args")
     ok = ea is not None and any(Pat("self.operands[len(self._parameters):]").match(r.value) is not None for r in returns(ea))
     ctx.ob("ALG.operators.elemwise-args", ea or elc.node, "elemwise_args = operands after the declared parameters, in order", ok)
+    # ---------------- twin agreement with the array-expression engine's copies (see sa/twin.py)
+    n_tw = check_pairs(ctx, all_pairs())
+    ctx.count("twin_pairs", n_tw)
+    ctx.floor("twin_pairs", 85, "functions that exist in both array engines")
 
 
 VARIANTS = [
